@@ -41,6 +41,10 @@ var c20Behaviours = []c20Behaviour{
 	{name: "404-echo-after-digest", auth: "status:404", challenge: true},
 	{name: "500-echo-after-digest", auth: "status:500", challenge: true},
 	{name: "malformed-challenge", auth: "malformed"},
+	// well-formed Digest challenges the client may not be able to answer: a list of qop values, auth-int only, another algorithm
+	{name: "digest-qop-list", auth: "digest-qop-list", challenge: true},
+	{name: "digest-qop-auth-int", auth: "digest-qop-auth-int", challenge: true},
+	{name: "digest-sha256", auth: "digest-sha256", challenge: true},
 	{name: "cluster-reset", auth: "digest", cluster: atlasfake.Fault{Kind: "reset"}, challenge: true},
 	{name: "cluster-500-echo", auth: "digest", cluster: atlasfake.Fault{Kind: "status", Status: 500}, challenge: true},
 	{name: "host-401-echo", auth: "digest", hostFault: atlasfake.Fault{Kind: "status", Status: 401}, challenge: true},
